@@ -412,17 +412,21 @@ def _doi_loader(res, index):
     fam = index.module("coxeter.families.tabulated_shape_family").classes.get("TabulatedGSDShapeFamily")
     if fac is None or fam is None:
         raise AnalysisError("anchor vanished: _doi_shape_collection_factory / TabulatedGSDShapeFamily")
-    files = mod.constants.get("_DOI_TO_FILE")
-    dois = [ast.literal_eval(k) for k in files.keys] if isinstance(files, ast.Dict) else []
+    # the DOIs of the module's literal tables (whatever their layout); those for which the factory builds a tabulated family
+    import re as _re
+    dois = sorted({k.value for node in mod.constants.values() if isinstance(node, ast.Dict) for k in node.keys
+                   if isinstance(k, ast.Constant) and isinstance(k.value, str) and _re.match(r"^10\.\d{4,}/\S+$", k.value)})
     if not dois:
-        raise AnalysisError("anchor vanished: _DOI_TO_FILE")
+        raise AnalysisError("anchor vanished: no module-level table keyed by DOI in doi_data_repositories")
+    ntab = 0
     for doi in dois:
         it = Interp(index, config={"fold_branches": True})
         r = it.run_entry(fac, None, args={fac.params[0]: vconst(doi)})
         cons = [e for e in r["events"] if e.type == "construct" and e.cls is fam]
         k = f"doi:{doi}"
         if not cons:
-            raise AnalysisError(f"LOAD-4: the factory builds no tabulated family for {doi} in a recognised way")
+            continue
+        ntab += 1
         bad = None
         for e in cons:
             a_ = (e.kwargs or {}).get("data") or (e.args[0] if e.args else None)
@@ -441,6 +445,8 @@ def _doi_loader(res, index):
                     f"(`{e.src()[:60]}`): entries that fail the condition silently disappear from names, iteration and get_shape")
         else:
             raise AnalysisError(f"LOAD-4: the mapping passed to TabulatedGSDShapeFamily for {doi} does not come from json.load in a recognised way")
+    if not ntab:
+        raise AnalysisError("LOAD-4: the factory builds a tabulated family for none of the DOIs in a recognised way")
 
 
 def _v(res, ok, rule, what, where):
